@@ -213,7 +213,7 @@ func checkC06(c *Ctx) error {
 	c.Rule = "seeded base configurations with references in every position (parameter chunk, inside multi-chunk patterns, after %%, constructor argument, call argument, field value, decorator argument for both %param% and @service), mutated by removing, renaming or todo-marking each declaration (singles exhaustively, k-subsets k<=4 sampled) and by injecting fresh dangling references; the 'Missing parameters' / 'Missing services' diagnostics are compared as sets of (referrer, missing name) pairs with the reference 'references minus declarations'; accepted iff the set is empty; accepted configurations are compiled and every service and parameter is fetched: no run-time error may say 'does not exist'. distinct = distinct configuration; non-trivial = at least one reference whose target was touched by a mutation"
 	c.Assumptions = []string{"a diagnostic names a reference when the missing name is its last quoted/sigil name and the referrer (parameter, service, decorator index or tag) appears before it", "multiplicity of diagnostics is not judged"}
 	w := c.W
-	bases := c.Pick(25, 800)
+	bases := c.Pick(40, 800)
 	var jobs []*cfg.Config
 	for b := 0; b < bases; b++ {
 		r := rand.New(rand.NewSource(c.Seed*48271 + int64(b)))
